@@ -138,7 +138,10 @@ fn kzg_ctx_ser(b: &Value, ser: &Option<(String, i64)>, errs: &mut Vec<String>) -
     let pp = kzg_pp(maxd)?;
     let pp: kzg10::UniversalParams<E> = rt(&*pp, ser, "pp", errs);
     let powers_g = pp.powers_of_g[..=sup].to_vec();
-    let powers_gamma: Vec<G1Affine> = (0..=sup).map(|i| pp.powers_of_gamma_g[&i]).collect();
+    // (as many hiding powers as the parameters publish up to sup + 2: a view with more hiding powers than plain
+    //  ones is what a key trimmed with hiding bound > supported degree hands out)
+    let top_gamma = (sup + 2).min(maxd + 1);
+    let powers_gamma: Vec<G1Affine> = (0..=top_gamma).map(|i| pp.powers_of_gamma_g[&i]).collect();
     let (powers_g, powers_gamma) = {
         let pw = kzg10::Powers::<E> { powers_of_g: Cow::Owned(powers_g), powers_of_gamma_g: Cow::Owned(powers_gamma) };
         let pw = rt(&pw, ser, "powers", errs);
